@@ -48,7 +48,7 @@ import vfs  # noqa: E402
 
 logging.disable(logging.CRITICAL)
 import warnings  # noqa: E402
-warnings.filterwarnings('ignore', message='.*object you.re saving is large.*')
+warnings.filterwarnings('ignore', category=UserWarning, module='ZODB.Connection')
 
 T0 = 0x03D0000000000000          # tids of the storage under test start here
 BASE_T0 = 0x03A0000000000000     # tids of a demo storage's base
